@@ -451,3 +451,30 @@ Proof.
   - rewrite Hf. reflexivity.
   - rewrite (Hn g (or_introl eq_refl)). apply IH; auto. intros g' Hg. apply Hn. right. exact Hg.
 Qed.
+
+(* ------------------------------------------------------------------ NEXT v1, v2, ... and early exits *)
+
+(* NEXT J, I is NEXT J and, only if that loop has ended, NEXT I (at the sub-position after I) *)
+Lemma next_vars_cons st j k nm rest :
+  next_vars st j k (nm :: rest) =
+    match iterate st j k nm with IEnded st' => next_vars st' j (S k) rest | r => r end.
+Proof. reflexivity. Qed.
+
+(* WEND of an outer loop reached after inner WHILE loops were left by a jump: their records are dropped *)
+Lemma pop_to_wend_stale stale w older j :
+  (forall w' e', In (w', e') stale -> e' <> j) ->
+  pop_to_wend (stale ++ (w, j) :: older) j = Some ((w, j) :: older).
+Proof.
+  induction stale as [|[w' e'] stale IH]; intros H; simpl.
+  - rewrite Nat.eqb_refl. reflexivity.
+  - assert (E : Nat.eqb e' j = false) by (apply Nat.eqb_neq; apply (H w' e'); left; reflexivity).
+    rewrite E. apply IH. intros w'' e'' Hin. apply (H w'' e''). right. exact Hin.
+Qed.
+
+(* GOTO changes nothing but the position: loops and subroutines that are open stay open *)
+Lemma goto_keeps_state code st n j : nth_error code (pc st) = Some (SGoto n) -> find_line code n = Some j ->
+  exists st', step code st = Go st' [] /\ pc st' = j /\ fors st' = fors st /\ whiles st' = whiles st /\
+              gosubs st' = gosubs st /\ ds st' = ds st.
+Proof.
+  intros H Hj. exists (set_pc st j). rewrite (goto_step code st n j H Hj). repeat split.
+Qed.
